@@ -32,6 +32,7 @@
 -/
 import ASV.Model.LocOps
 import ASV.Model.LocString
+import ASV.Model.ProtDna
 namespace ASV.Serial
 open ASV
 
@@ -787,6 +788,53 @@ def readRecord (len : Int) (circular : Bool) (bios : List Bio) : E Rec := do
   let r ← (candOrder (post.filter (·.type == "cand_cluster"))).foldlM (fun r b => do addCand r (← Cand.fromBio r b)) r
   let r ← (post.filter (·.type == "region")).foldlM (fun r b => do addReg r (← Reg.fromBio r b)) r
   (post.filter (·.type == "aSModule")).foldlM (fun r b => do pure { r with others := r.others ++ [← plainFromBio b] }) r
+
+/-! ### prepeptides: the location is written as leader / core / tail and rebuilt from them
+
+  `Prepeptide.to_biopython` cuts the location with `get_sub_location_from_protein_coordinates`
+  (C09's `ProtDna.prepeptideSections`), writes the core feature at the core's location and the leader's
+  and tail's locations as text (`leader_location`, `tail_location`); `Prepeptide.from_biopython` parses
+  them back and combines the three with `_combine_sections` (the repaired code, fixes/D107). -/
+
+/-- one step of `_combine_sections`: `accRev` holds the parts kept so far, last one first; the parts
+    of the next section are appended, its first part merged into the last kept part when it continues
+    exactly where that one stops (downwards on the reverse strand, upwards otherwise) -/
+def combineSection (accRev : List Part) (ps : List Part) : List Part :=
+  match accRev, ps with
+  | prev :: rest, first :: more =>
+    if prev.strand == first.strand && first.strand == .rev && first.hi == prev.lo then
+      more.reverse ++ ⟨first.lo, prev.hi, first.strand⟩ :: rest
+    else if prev.strand == first.strand && first.strand != .rev && first.lo == prev.hi then
+      more.reverse ++ ⟨prev.lo, first.hi, first.strand⟩ :: rest
+    else ps.reverse ++ accRev
+  | _, _ => ps.reverse ++ accRev
+
+/-- `_combine_sections(sections)` (fixes/D107) -/
+def combineSections (sections : List Loc) : Loc :=
+  Loc.ofParts ((sections.foldl (fun acc s => combineSection acc s.parts) []).reverse)
+
+def optList {α} : Option α → List α
+  | some a => [a]
+  | none => []
+
+/-- what is written about the location of a prepeptide: the core feature's location and the two
+    location strings -/
+structure PreWritten where
+  core : Loc
+  leader : Option String
+  tail : Option String
+deriving DecidableEq, Repr
+
+/-- location part of `Prepeptide.to_biopython` (leader and tail lengths in residues) -/
+def preWrite (l : Loc) (leaderLen tailLen : Int) : ProtDna.Res PreWritten :=
+  (ProtDna.prepeptideSections l leaderLen tailLen).bind fun (a, c, b) =>
+    .ok ⟨c, a.map locToString, b.map locToString⟩
+
+/-- location part of `Prepeptide.from_biopython` -/
+def preRead (w : PreWritten) : Option Loc := do
+  let a ← match w.leader with | some s => (locFromString s).map some | none => some none
+  let b ← match w.tail with | some s => (locFromString s).map some | none => some none
+  pure (combineSections (optList a ++ [w.core] ++ optList b))
 
 /-! ### JSON form of a feature (`serialiser.feature_to_json / feature_from_json`) -/
 
